@@ -1,9 +1,15 @@
-(* C02 (part p) -- integer powers of the pose classes:  X ** n = np.linalg.matrix_power(X.A, n).
-   Model (Model/C02_Pow.v): mpow = iterated product; the exact inverse (adjugate / determinant) first when n < 0.
-   1. the traces of the real `X ** n` (class operator executed on symbols; np.linalg.inv on symbols = adj/det) are
-      the model, for n = 0..4 and the traced negative exponents -- for ALL matrices (with non-zero determinant);
-   2. the model obeys the power laws for EVERY integer exponent (induction, Model/C02_Pow.v Section Monoid);
-   3. on the group the powers stay in the group and X ** -n is the structured inverse (.inv()) of X ** n.
+(* C02 (part p) -- integer powers of the pose classes (SMPose.__pow__ as of /repo fbf47d0):
+     X ** n  =  np.linalg.matrix_power(X.A, n)  for n >= 0,     X ** n  =  X.inv() ** (-n)  for n < 0,
+   where X.inv() is the closed-form inverse of the class (transpose; [R', -R' t]).
+   Model (Model/C02_Pow.v): mpow = iterated product, of the structured inverse when n < 0.
+   0. the extracted T-num functions are the model (by computation);
+   1. the traces of the real `X ** n`, n = -4..4 (class operator executed on symbols) are the model -- ALL matrices, ring;
+   2. laws that need no group membership (ANY matrix; the induction lemmas of Model/C02_Pow.v are axiom-free):
+      X**0 = I, X**1 = X, X**(n+1) = X**n * X and X**(m+n) = X**m * X**n for m, n >= 0, X**-n = X.inv()**n,
+      and for SO(n) the defect form  X**-n = (X**n)'  so that  X**n * X**-n = P P'  with P = X**n;
+   3. FULL power laws for every m, n in Z on the group (SO(2), SO(3), SE(2), SE(3) membership): the bundle `power_laws`;
+      powers stay in the group and X**-n = (X**n).inv();
+   4. without membership the mixed-sign law is false (_refuted witness).
    The model is also run against the implementation for every |n| <= 8 (T-num) on each run. *)
 From Coq Require Import Reals ZArith Lra Lia Nsatz.
 From SM Require Import Base.Ops Base.Lin Base.RInst Base.RLin Model.C02_Pow.
@@ -13,19 +19,31 @@ Open Scope R_scope.
 Ltac gen_unfold := autounfold with smgen smlin c02 in *; sm_simpl.
 Ltac pow_unfold := cbv beta iota delta [SO2_pow SO3_pow SE2_pow SE3_pow mpow pow_nat Z.ltb Z.compare Z.abs_nat
                                          Pos.to_nat Pos.iter_op Nat.add].
-Ltac nz Hd := repeat split; intro Hc; apply Hd; nsatz.
 Ltac pow_ring := intros; destruct_tuples; pow_unfold; gen_unfold; repeat split; tuple_eq ltac:(ring).
-Ltac pow_field Hd := destruct_tuples; pow_unfold; gen_unfold; repeat split; tuple_eq ltac:(field; nz Hd).
 
-(* ------------------------------------------------------------------ the bundle of laws, for any monoid *)
+(* ------------------------------------------------------------------ the bundles of laws, for any monoid *)
 Section Laws.
 Variables (M : Type) (mul : M -> M -> M) (e : M) (inv : M -> M).
 Hypothesis assoc : forall a b c, mul (mul a b) c = mul a (mul b c).
 Hypothesis id_l : forall a, mul e a = a.
 Hypothesis id_r : forall a, mul a e = a.
-Definition power_laws (A : M) : Prop := forall m n : Z,
+(* what holds for ANY element (no inverse property used) *)
+Definition power_laws_nonneg (A : M) : Prop := forall m n : Z,
   mpow mul e inv A 0 = e /\ mpow mul e inv A 1 = A /\ mpow mul e inv A (-1) = inv A /\
   ((0 <= n)%Z -> mpow mul e inv A (n + 1) = mul (mpow mul e inv A n) A) /\
+  ((0 <= m)%Z -> (0 <= n)%Z -> mpow mul e inv A (m + n) = mul (mpow mul e inv A m) (mpow mul e inv A n)) /\
+  ((0 < n)%Z -> mpow mul e inv A (- n) = mpow mul e inv (inv A) n).
+Lemma power_laws_nonneg_hold A : power_laws_nonneg A.
+Proof.
+  intros m n. repeat split.
+  - apply mpow_1; assumption.
+  - apply mpow_m1; assumption.
+  - apply mpow_succ.
+  - apply mpow_add_nonneg; assumption.
+  - apply mpow_neg_is_pow_inv.
+Qed.
+(* the full laws, every m n : Z, given that inv A is a two-sided inverse of A *)
+Definition power_laws (A : M) : Prop := forall m n : Z,
   mul (mpow mul e inv A n) (mpow mul e inv A (- n)) = e /\
   mul (mpow mul e inv A (- n)) (mpow mul e inv A n) = e /\
   mpow mul e inv A (m + n) = mul (mpow mul e inv A m) (mpow mul e inv A n).
@@ -34,34 +52,22 @@ Proof.
   intros H1 H2 m n.
   pose proof (mpow_add M mul e assoc id_l id_r inv A) as Hadd.
   repeat split.
-  - apply mpow_1; assumption.
-  - apply mpow_m1; assumption.
-  - apply mpow_succ.
   - rewrite <- Hadd by assumption. replace (n + - n)%Z with 0%Z by lia. reflexivity.
   - rewrite <- Hadd by assumption. replace (- n + n)%Z with 0%Z by lia. reflexivity.
   - apply Hadd; assumption.
 Qed.
 End Laws.
 
-(* ------------------------------------------------------------------ monoid facts of the four matrix shapes *)
-Lemma mmul33_I_l' (A : M33 R) : mmul33 Rops (I33 Rops) A = A. Proof. lin_ring. Qed.
 Lemma mmul22_I_l (A : M22 R) : mmul22 Rops (I22 Rops) A = A. Proof. lin_ring. Qed.
 Lemma mmul22_I_r (A : M22 R) : mmul22 Rops A (I22 Rops) = A. Proof. lin_ring. Qed.
-
-Lemma minv22_inverse (A : M22 R) : det22 Rops A <> 0 ->
-  mmul22 Rops A (minv22 Rops A) = I22 Rops /\ mmul22 Rops (minv22 Rops A) A = I22 Rops.
-Proof. intros Hd. destruct_tuples. gen_unfold. split; tuple_eq ltac:(field; nz Hd). Qed.
-Lemma minv33_inverse (A : M33 R) : det33 Rops A <> 0 ->
-  mmul33 Rops A (minv33 Rops A) = I33 Rops /\ mmul33 Rops (minv33 Rops A) A = I33 Rops.
-Proof. intros Hd. destruct_tuples. gen_unfold. split; tuple_eq ltac:(field; nz Hd). Qed.
-Lemma minv_aff3_inverse (A : M33 R) : det22 Rops (t2r2 A) <> 0 ->
-  mmul33 Rops (aff3 Rops A) (minv_aff3 Rops (aff3 Rops A)) = I33 Rops /\
-  mmul33 Rops (minv_aff3 Rops (aff3 Rops A)) (aff3 Rops A) = I33 Rops.
-Proof. intros Hd. destruct_tuples. gen_unfold. split; tuple_eq ltac:(field; nz Hd). Qed.
-Lemma minv_aff4_inverse (A : M44 R) : det33 Rops (t2r3 A) <> 0 ->
-  mmul44 Rops (aff4 Rops A) (minv_aff4 Rops (aff4 Rops A)) = I44 Rops /\
-  mmul44 Rops (minv_aff4 Rops (aff4 Rops A)) (aff4 Rops A) = I44 Rops.
-Proof. intros Hd. destruct_tuples. gen_unfold. split; tuple_eq ltac:(field; nz Hd). Qed.
+Lemma mtr22_mul (A B : M22 R) : mtr22 (mmul22 Rops A B) = mmul22 Rops (mtr22 B) (mtr22 A). Proof. lin_ring. Qed.
+Lemma SO2_inv_r (A : M22 R) : SO2 A -> mmul22 Rops A (mtr22 A) = I22 Rops.
+Proof. intros H. apply SO2_matrix in H. tauto. Qed.
+Lemma SO2_inv_l (A : M22 R) : SO2 A -> mmul22 Rops (mtr22 A) A = I22 Rops.
+Proof.
+  intros H. destruct_tuples. pose proof (SO2_columns _ _ _ _ H) as (?&?&?). unfold SO2 in H. destruct H as (?&?&?&?).
+  lin_simpl. tuple_eq ltac:(nsatz).
+Qed.
 
 (* ================================================================== 0. the extracted T-num functions are the model *)
 Theorem C02_SO2_pw_is_model : forall X : M22 R,
@@ -148,167 +154,171 @@ Theorem C02_SE3_pw_is_model : forall X : M44 R,
 Proof. intros; repeat split; reflexivity. Qed.
 Print Assumptions C02_SE3_pw_is_model.
 
-(* ================================================================== 1. traces = model *)
+(* ================================================================== 1. traces = model, ALL matrices *)
 Theorem C02_SO2_pow_traces : forall X : M22 R,
-  tr_SO2_pow_p0 Rops X = SO2_pow Rops X 0 /\ tr_SO2_pow_p1 Rops X = SO2_pow Rops X 1 /\
-  tr_SO2_pow_p2 Rops X = SO2_pow Rops X 2 /\ tr_SO2_pow_p3 Rops X = SO2_pow Rops X 3 /\
-  tr_SO2_pow_p4 Rops X = SO2_pow Rops X 4.
+  tr_SO2_pow_p0 Rops X = SO2_pow Rops X (0) /\
+  tr_SO2_pow_p1 Rops X = SO2_pow Rops X (1) /\
+  tr_SO2_pow_p2 Rops X = SO2_pow Rops X (2) /\
+  tr_SO2_pow_p3 Rops X = SO2_pow Rops X (3) /\
+  tr_SO2_pow_p4 Rops X = SO2_pow Rops X (4).
 Proof. pow_ring. Qed.
 Print Assumptions C02_SO2_pow_traces.
 
-Theorem C02_SO2_pow_traces_neg : forall X : M22 R, det22 Rops X <> 0 ->
-  tr_SO2_pow_m1 Rops X = SO2_pow Rops X (-1) /\ tr_SO2_pow_m2 Rops X = SO2_pow Rops X (-2) /\
-  tr_SO2_pow_m3 Rops X = SO2_pow Rops X (-3) /\ tr_SO2_pow_m4 Rops X = SO2_pow Rops X (-4).
-Proof. intros X Hd. pow_field Hd. Qed.
+(* negative exponents: the traced X.inv() ** (-n); no determinant, no hypothesis *)
+Theorem C02_SO2_pow_traces_neg : forall X : M22 R,
+  tr_SO2_pow_m4 Rops X = SO2_pow Rops X (-4) /\
+  tr_SO2_pow_m3 Rops X = SO2_pow Rops X (-3) /\
+  tr_SO2_pow_m2 Rops X = SO2_pow Rops X (-2) /\
+  tr_SO2_pow_m1 Rops X = SO2_pow Rops X (-1).
+Proof. pow_ring. Qed.
 Print Assumptions C02_SO2_pow_traces_neg.
 
 Theorem C02_SE2_pow_traces : forall X : M33 R,
-  tr_SE2_pow_p0 Rops X = SE2_pow Rops X 0 /\ tr_SE2_pow_p1 Rops X = SE2_pow Rops X 1 /\
-  tr_SE2_pow_p2 Rops X = SE2_pow Rops X 2 /\ tr_SE2_pow_p3 Rops X = SE2_pow Rops X 3 /\
-  tr_SE2_pow_p4 Rops X = SE2_pow Rops X 4.
+  tr_SE2_pow_p0 Rops X = SE2_pow Rops X (0) /\
+  tr_SE2_pow_p1 Rops X = SE2_pow Rops X (1) /\
+  tr_SE2_pow_p2 Rops X = SE2_pow Rops X (2) /\
+  tr_SE2_pow_p3 Rops X = SE2_pow Rops X (3) /\
+  tr_SE2_pow_p4 Rops X = SE2_pow Rops X (4).
 Proof. pow_ring. Qed.
 Print Assumptions C02_SE2_pow_traces.
 
-Theorem C02_SE2_pow_traces_neg : forall X : M33 R, det22 Rops (t2r2 X) <> 0 ->
-  tr_SE2_pow_m1 Rops X = SE2_pow Rops X (-1) /\ tr_SE2_pow_m2 Rops X = SE2_pow Rops X (-2) /\
-  tr_SE2_pow_m3 Rops X = SE2_pow Rops X (-3).
-Proof. intros X Hd. pow_field Hd. Qed.
+(* negative exponents: the traced X.inv() ** (-n); no determinant, no hypothesis *)
+Theorem C02_SE2_pow_traces_neg : forall X : M33 R,
+  tr_SE2_pow_m4 Rops X = SE2_pow Rops X (-4) /\
+  tr_SE2_pow_m3 Rops X = SE2_pow Rops X (-3) /\
+  tr_SE2_pow_m2 Rops X = SE2_pow Rops X (-2) /\
+  tr_SE2_pow_m1 Rops X = SE2_pow Rops X (-1).
+Proof. pow_ring. Qed.
 Print Assumptions C02_SE2_pow_traces_neg.
 
 Theorem C02_SO3_pow_traces : forall X : M33 R,
-  tr_SO3_pow_p0 Rops X = SO3_pow Rops X 0 /\ tr_SO3_pow_p1 Rops X = SO3_pow Rops X 1 /\
-  tr_SO3_pow_p2 Rops X = SO3_pow Rops X 2 /\ tr_SO3_pow_p3 Rops X = SO3_pow Rops X 3 /\
-  tr_SO3_pow_p4 Rops X = SO3_pow Rops X 4.
+  tr_SO3_pow_p0 Rops X = SO3_pow Rops X (0) /\
+  tr_SO3_pow_p1 Rops X = SO3_pow Rops X (1) /\
+  tr_SO3_pow_p2 Rops X = SO3_pow Rops X (2) /\
+  tr_SO3_pow_p3 Rops X = SO3_pow Rops X (3) /\
+  tr_SO3_pow_p4 Rops X = SO3_pow Rops X (4).
 Proof. pow_ring. Qed.
 Print Assumptions C02_SO3_pow_traces.
 
-Theorem C02_SO3_pow_traces_neg : forall X : M33 R, det33 Rops X <> 0 ->
-  tr_SO3_pow_m1 Rops X = SO3_pow Rops X (-1) /\ tr_SO3_pow_m2 Rops X = SO3_pow Rops X (-2).
-Proof. intros X Hd. pow_field Hd. Qed.
+(* negative exponents: the traced X.inv() ** (-n); no determinant, no hypothesis *)
+Theorem C02_SO3_pow_traces_neg : forall X : M33 R,
+  tr_SO3_pow_m4 Rops X = SO3_pow Rops X (-4) /\
+  tr_SO3_pow_m3 Rops X = SO3_pow Rops X (-3) /\
+  tr_SO3_pow_m2 Rops X = SO3_pow Rops X (-2) /\
+  tr_SO3_pow_m1 Rops X = SO3_pow Rops X (-1).
+Proof. pow_ring. Qed.
 Print Assumptions C02_SO3_pow_traces_neg.
 
 Theorem C02_SE3_pow_traces : forall X : M44 R,
-  tr_SE3_pow_p0 Rops X = SE3_pow Rops X 0 /\ tr_SE3_pow_p1 Rops X = SE3_pow Rops X 1 /\
-  tr_SE3_pow_p2 Rops X = SE3_pow Rops X 2 /\ tr_SE3_pow_p3 Rops X = SE3_pow Rops X 3 /\
-  tr_SE3_pow_p4 Rops X = SE3_pow Rops X 4.
+  tr_SE3_pow_p0 Rops X = SE3_pow Rops X (0) /\
+  tr_SE3_pow_p1 Rops X = SE3_pow Rops X (1) /\
+  tr_SE3_pow_p2 Rops X = SE3_pow Rops X (2) /\
+  tr_SE3_pow_p3 Rops X = SE3_pow Rops X (3) /\
+  tr_SE3_pow_p4 Rops X = SE3_pow Rops X (4).
 Proof. pow_ring. Qed.
 Print Assumptions C02_SE3_pow_traces.
 
-Theorem C02_SE3_pow_traces_neg : forall X : M44 R, det33 Rops (t2r3 X) <> 0 ->
-  tr_SE3_pow_m1 Rops X = SE3_pow Rops X (-1) /\ tr_SE3_pow_m2 Rops X = SE3_pow Rops X (-2).
-Proof. intros X Hd. pow_field Hd. Qed.
+(* negative exponents: the traced X.inv() ** (-n); no determinant, no hypothesis *)
+Theorem C02_SE3_pow_traces_neg : forall X : M44 R,
+  tr_SE3_pow_m4 Rops X = SE3_pow Rops X (-4) /\
+  tr_SE3_pow_m3 Rops X = SE3_pow Rops X (-3) /\
+  tr_SE3_pow_m2 Rops X = SE3_pow Rops X (-2) /\
+  tr_SE3_pow_m1 Rops X = SE3_pow Rops X (-1).
+Proof. pow_ring. Qed.
 Print Assumptions C02_SE3_pow_traces_neg.
 
-(* ================================================================== 2. the laws, every integer exponent *)
-(* X**0 = I, X**1 = X, X**-1 = inverse, X**(n+1) = X**n * X (n >= 0), X**n * X**-n = I = X**-n * X**n,
-   X**(m+n) = X**m * X**n  -- for all m n : Z and every INVERTIBLE matrix (no orthogonality needed) *)
-Theorem C02_SO2_power_laws : forall X : M22 R, det22 Rops X <> 0 ->
-  power_laws _ (mmul22 Rops) (I22 Rops) (minv22 Rops) X.
-Proof.
-  intros X Hd. destruct (minv22_inverse X Hd). apply power_laws_hold; auto using mmul22_assoc, mmul22_I_l, mmul22_I_r.
-Qed.
-Print Assumptions C02_SO2_power_laws.
+(* ================================================================== 2. laws for ANY matrix *)
+Theorem C02_SO2_power_laws_any : forall X : M22 R, power_laws_nonneg _ (mmul22 Rops) (I22 Rops) (@mtr22 R) X.
+Proof. intros X. apply power_laws_nonneg_hold; auto using mmul22_assoc, mmul22_I_l, mmul22_I_r. Qed.
+Print Assumptions C02_SO2_power_laws_any.
+Theorem C02_SO3_power_laws_any : forall X : M33 R, power_laws_nonneg _ (mmul33 Rops) (I33 Rops) (@mtr33 R) X.
+Proof. intros X. apply power_laws_nonneg_hold; auto using mmul33_assoc, mmul33_I_l, mmul33_I_r. Qed.
+Print Assumptions C02_SO3_power_laws_any.
+Theorem C02_SE2_power_laws_any : forall X : M33 R,
+  power_laws_nonneg _ (mmul33 Rops) (I33 Rops) (sinv_aff3 Rops) (aff3 Rops X).
+Proof. intros X. apply power_laws_nonneg_hold; auto using mmul33_assoc, mmul33_I_l, mmul33_I_r. Qed.
+Print Assumptions C02_SE2_power_laws_any.
+Theorem C02_SE3_power_laws_any : forall X : M44 R,
+  power_laws_nonneg _ (mmul44 Rops) (I44 Rops) (sinv_aff4 Rops) (aff4 Rops X).
+Proof. intros X. apply power_laws_nonneg_hold; auto using mmul44_assoc, mmul44_I_l, mmul44_I_r. Qed.
+Print Assumptions C02_SE3_power_laws_any.
 
-Theorem C02_SO3_power_laws : forall X : M33 R, det33 Rops X <> 0 ->
-  power_laws _ (mmul33 Rops) (I33 Rops) (minv33 Rops) X.
+(* defect form for the rotation classes, ANY matrix and EVERY integer n:  X ** -n = (X ** n)' , hence
+   X**n * X**-n = P P' and X**-n * X**n = P' P with P = X**n: the residual is the orthogonality defect of X**n *)
+Lemma mtr33_I : mtr33 (I33 Rops) = I33 Rops. Proof. reflexivity. Qed.
+Lemma mtr22_I : mtr22 (I22 Rops) = I22 Rops. Proof. reflexivity. Qed.
+Lemma mtr33_invol (A : M33 R) : mtr33 (mtr33 A) = A. Proof. destruct_tuples. reflexivity. Qed.
+Lemma mtr22_invol (A : M22 R) : mtr22 (mtr22 A) = A. Proof. destruct_tuples. reflexivity. Qed.
+
+Theorem C02_SO3_pow_neg_defect : forall (X : M33 R) (n : Z),
+  SO3_pow Rops X (- n) = mtr33 (SO3_pow Rops X n) /\
+  mmul33 Rops (SO3_pow Rops X n) (SO3_pow Rops X (- n)) = mmul33 Rops (SO3_pow Rops X n) (mtr33 (SO3_pow Rops X n)).
 Proof.
-  intros X Hd. destruct (minv33_inverse X Hd). apply power_laws_hold; auto using mmul33_assoc, mmul33_I_l, mmul33_I_r.
+  intros X n.
+  assert (E : SO3_pow Rops X (- n) = mtr33 (SO3_pow Rops X n)).
+  { pose proof (pow_nat_antihom _ (mmul33 Rops) (I33 Rops) mmul33_assoc mmul33_I_l mmul33_I_r (@mtr33 R)) as Ha.
+    unfold SO3_pow, mpow.
+    destruct (Z.ltb_spec n 0) as [Hn|Hn], (Z.ltb_spec (- n) 0) as [Hm|Hm]; try lia.
+    - replace (Z.abs_nat (- n)) with (Z.abs_nat n) by lia.
+      rewrite Ha by (try exact mtr33_I; intros; apply mtr33_mul). rewrite mtr33_invol. reflexivity.
+    - replace (Z.abs_nat (- n)) with (Z.abs_nat n) by lia.
+      apply Ha; [exact mtr33_I | intros; apply mtr33_mul].
+    - replace n with 0%Z by lia. reflexivity. }
+  split; [exact E | rewrite E; reflexivity].
+Qed.
+Print Assumptions C02_SO3_pow_neg_defect.
+
+Theorem C02_SO2_pow_neg_defect : forall (X : M22 R) (n : Z),
+  SO2_pow Rops X (- n) = mtr22 (SO2_pow Rops X n) /\
+  mmul22 Rops (SO2_pow Rops X n) (SO2_pow Rops X (- n)) = mmul22 Rops (SO2_pow Rops X n) (mtr22 (SO2_pow Rops X n)).
+Proof.
+  intros X n.
+  assert (E : SO2_pow Rops X (- n) = mtr22 (SO2_pow Rops X n)).
+  { pose proof (pow_nat_antihom _ (mmul22 Rops) (I22 Rops) mmul22_assoc mmul22_I_l mmul22_I_r (@mtr22 R)) as Ha.
+    unfold SO2_pow, mpow.
+    destruct (Z.ltb_spec n 0) as [Hn|Hn], (Z.ltb_spec (- n) 0) as [Hm|Hm]; try lia.
+    - replace (Z.abs_nat (- n)) with (Z.abs_nat n) by lia.
+      rewrite Ha by (try exact mtr22_I; intros; apply mtr22_mul). rewrite mtr22_invol. reflexivity.
+    - replace (Z.abs_nat (- n)) with (Z.abs_nat n) by lia.
+      apply Ha; [exact mtr22_I | intros; apply mtr22_mul].
+    - replace n with 0%Z by lia. reflexivity. }
+  split; [exact E | rewrite E; reflexivity].
+Qed.
+Print Assumptions C02_SO2_pow_neg_defect.
+
+(* ================================================================== 3. the FULL laws on the group, every m n : Z *)
+(* X**n * X**-n = I = X**-n * X**n  and  X**(m+n) = X**m * X**n *)
+Theorem C02_SO3_power_laws : forall X : M33 R, SO3 X -> power_laws _ (mmul33 Rops) (I33 Rops) (@mtr33 R) X.
+Proof.
+  intros X H. apply power_laws_hold; auto using mmul33_assoc, mmul33_I_l, mmul33_I_r, SO3_inv_r, SO3_inv_l.
 Qed.
 Print Assumptions C02_SO3_power_laws.
 
-Theorem C02_SE2_power_laws : forall X : M33 R, det22 Rops (t2r2 X) <> 0 ->
-  power_laws _ (mmul33 Rops) (I33 Rops) (minv_aff3 Rops) (aff3 Rops X).
+Theorem C02_SO2_power_laws : forall X : M22 R, SO2 X -> power_laws _ (mmul22 Rops) (I22 Rops) (@mtr22 R) X.
 Proof.
-  intros X Hd. destruct (minv_aff3_inverse X Hd). apply power_laws_hold; auto using mmul33_assoc, mmul33_I_l, mmul33_I_r.
+  intros X H. apply power_laws_hold; auto using mmul22_assoc, mmul22_I_l, mmul22_I_r, SO2_inv_r, SO2_inv_l.
 Qed.
-Print Assumptions C02_SE2_power_laws.
+Print Assumptions C02_SO2_power_laws.
 
-Theorem C02_SE3_power_laws : forall X : M44 R, det33 Rops (t2r3 X) <> 0 ->
-  power_laws _ (mmul44 Rops) (I44 Rops) (minv_aff4 Rops) (aff4 Rops X).
+Lemma sinv_aff4_is_trinv (X : M44 R) : sinv_aff4 Rops X = trinv_ref X.
+Proof. reflexivity. Qed.
+Lemma aff4_SE3 (X : M44 R) : SE3 X -> aff4 Rops X = X.
+Proof. intros H. symmetry. apply SE3_decompose. exact H. Qed.
+
+Theorem C02_SE3_power_laws : forall X : M44 R, SE3 X ->
+  power_laws _ (mmul44 Rops) (I44 Rops) (sinv_aff4 Rops) (aff4 Rops X).
 Proof.
-  intros X Hd. destruct (minv_aff4_inverse X Hd). apply power_laws_hold; auto using mmul44_assoc, mmul44_I_l, mmul44_I_r.
+  intros X H. rewrite (aff4_SE3 X H).
+  apply power_laws_hold; auto using mmul44_assoc, mmul44_I_l, mmul44_I_r; rewrite sinv_aff4_is_trinv;
+    [apply SE3_inv_r | apply SE3_inv_l]; exact H.
 Qed.
 Print Assumptions C02_SE3_power_laws.
 
-(* ================================================================== 3. on the group *)
-Lemma SO3_det (X : M33 R) : SO3 X -> det33 Rops X <> 0.
-Proof. intros H. apply SO3_matrix in H. destruct H as [_ H]. rewrite H. lra. Qed.
-Lemma SO2_det (X : M22 R) : SO2 X -> det22 Rops X <> 0.
-Proof. intros H. apply SO2_matrix in H. destruct H as [_ H]. rewrite H. lra. Qed.
-Lemma SO2_inv_r (A : M22 R) : SO2 A -> mmul22 Rops A (mtr22 A) = I22 Rops.
-Proof. intros H. apply SO2_matrix in H. tauto. Qed.
-
-Lemma minv33_SO3 (X : M33 R) : SO3 X -> minv33 Rops X = mtr33 X.
-Proof.
-  intros H. destruct (minv33_inverse X (SO3_det X H)) as [H1 _].
-  apply (inverse_unique _ (mmul33 Rops) (I33 Rops) mmul33_assoc mmul33_I_l mmul33_I_r X); [exact H1|].
-  apply SO3_inv_l; exact H.
-Qed.
-Lemma minv22_SO2 (X : M22 R) : SO2 X -> minv22 Rops X = mtr22 X.
-Proof.
-  intros H. destruct (minv22_inverse X (SO2_det X H)) as [_ H1].
-  symmetry. apply (inverse_unique _ (mmul22 Rops) (I22 Rops) mmul22_assoc mmul22_I_l mmul22_I_r X); [|exact H1].
-  apply SO2_inv_r; exact H.
-Qed.
-
-(* powers of a rotation are rotations, and X ** -n is the transpose (= .inv()) of X ** n *)
-Theorem C02_SO3_pow_group : forall (X : M33 R) (n : Z), SO3 X ->
-  SO3 (SO3_pow Rops X n) /\ SO3_pow Rops X (- n) = mtr33 (SO3_pow Rops X n).
-Proof.
-  intros X n H.
-  assert (Hc : forall k, SO3 (SO3_pow Rops X k)).
-  { intro k. unfold SO3_pow. apply (mpow_closed _ _ _ _ SO3); auto using SO3_I, SO3_mul.
-    rewrite minv33_SO3 by assumption. apply SO3_tr; assumption. }
-  split; [apply Hc|].
-  destruct (C02_SO3_power_laws X (SO3_det X H) 0%Z n) as (_ & _ & _ & _ & L1 & _ & _).
-  apply (inverse_unique _ (mmul33 Rops) (I33 Rops) mmul33_assoc mmul33_I_l mmul33_I_r (SO3_pow Rops X n)); [exact L1|].
-  apply SO3_inv_l. apply Hc.
-Qed.
-Print Assumptions C02_SO3_pow_group.
-
-Theorem C02_SO2_pow_group : forall (X : M22 R) (n : Z), SO2 X ->
-  SO2 (SO2_pow Rops X n) /\ SO2_pow Rops X (- n) = mtr22 (SO2_pow Rops X n).
-Proof.
-  intros X n H.
-  assert (Hc : forall k, SO2 (SO2_pow Rops X k)).
-  { intro k. unfold SO2_pow. apply (mpow_closed _ _ _ _ SO2); auto using SO2_I, SO2_mul.
-    rewrite minv22_SO2 by assumption. apply SO2_tr; assumption. }
-  split; [apply Hc|].
-  destruct (C02_SO2_power_laws X (SO2_det X H) 0%Z n) as (_ & _ & _ & _ & L1 & L2 & _).
-  symmetry. apply (inverse_unique _ (mmul22 Rops) (I22 Rops) mmul22_assoc mmul22_I_l mmul22_I_r (SO2_pow Rops X n)); [|exact L2].
-  apply SO2_inv_r. apply Hc.
-Qed.
-Print Assumptions C02_SO2_pow_group.
-
-(* powers of a rigid motion are rigid motions, and X ** -n is trinv (= .inv()) of X ** n *)
-Lemma minv_aff4_SE3 (X : M44 R) : SE3 X -> minv_aff4 Rops X = trinv_ref X.
-Proof.
-  intros H. pose proof H as [Hr _]. pose proof (SE3_decompose X H) as Hx.
-  destruct (minv_aff4_inverse X (SO3_det _ Hr)) as [H1 _]. unfold aff4 in H1. rewrite <- Hx in H1.
-  apply (inverse_unique _ (mmul44 Rops) (I44 Rops) mmul44_assoc mmul44_I_l mmul44_I_r X); [exact H1|].
-  apply SE3_inv_l; exact H.
-Qed.
-Lemma SE3_I : SE3 (I44 Rops).
-Proof. unfold SE3. lin_simpl. unfold SO3. repeat split; ring. Qed.
-
-Theorem C02_SE3_pow_group : forall (X : M44 R) (n : Z), SE3 X ->
-  SE3 (SE3_pow Rops X n) /\ SE3_pow Rops X (- n) = trinv_ref (SE3_pow Rops X n).
-Proof.
-  intros X n H. pose proof H as [Hr _]. pose proof (SE3_decompose X H) as Hx.
-  assert (Ha : aff4 Rops X = X) by (symmetry; exact Hx).
-  assert (Hc : forall k, SE3 (SE3_pow Rops X k)).
-  { intro k. unfold SE3_pow. rewrite Ha. apply (mpow_closed _ _ _ _ SE3); auto using SE3_I, SE3_mul.
-    rewrite minv_aff4_SE3 by assumption. apply SE3_inv; assumption. }
-  split; [apply Hc|].
-  destruct (C02_SE3_power_laws X (SO3_det _ Hr) 0%Z n) as (_ & _ & _ & _ & L1 & _ & _).
-  apply (inverse_unique _ (mmul44 Rops) (I44 Rops) mmul44_assoc mmul44_I_l mmul44_I_r (SE3_pow Rops X n)); [exact L1|].
-  apply SE3_inv_l. apply Hc.
-Qed.
-Print Assumptions C02_SE3_pow_group.
-
-(* the same for SE(2) (Base/RLin.v has no SE2 closure lemmas; they are small enough to prove here) *)
+(* SE(2): Base/RLin.v has no SE2 closure lemmas; they are small enough to prove here *)
 Definition trinv2_ref (A : M33 R) : M33 R :=
   rt2tr2 Rops (mtr22 (t2r2 A)) (vneg2 Rops (mv22 Rops (mtr22 (t2r2 A)) (transl2 A))).
+Lemma sinv_aff3_is_trinv2 (X : M33 R) : sinv_aff3 Rops X = trinv2_ref X.
+Proof. reflexivity. Qed.
 Lemma SE2_I : SE2 (I33 Rops).
 Proof. unfold SE2. lin_simpl. unfold SO2. repeat split; ring. Qed.
 Lemma SE2_mul (A B : M33 R) : SE2 A -> SE2 B -> SE2 (mmul33 Rops A B).
@@ -319,43 +329,94 @@ Proof.
     rewrite E. apply SO2_mul; assumption.
   - destruct_tuples. lin_simpl. injection LA; injection LB; intros; subst. tuple_eq ltac:(ring).
 Qed.
-Lemma SE2_trinv2 (A : M33 R) : SE2 A -> SE2 (trinv2_ref A) /\ mmul33 Rops (trinv2_ref A) A = I33 Rops.
+Lemma SE2_trinv2 (A : M33 R) : SE2 A ->
+  SE2 (trinv2_ref A) /\ mmul33 Rops (trinv2_ref A) A = I33 Rops /\ mmul33 Rops A (trinv2_ref A) = I33 Rops.
 Proof.
   intros [HA LA]. destruct_tuples. unfold t2r2 in HA. pose proof (SO2_columns _ _ _ _ HA) as (?&?&?).
   unfold trinv2_ref, SE2, SO2 in *. lin_simpl. injection LA; intros; subst. destruct HA as (?&?&?&?).
-  split; [split; [repeat split; nsatz | reflexivity] | tuple_eq ltac:(nsatz)].
+  split; [split; [repeat split; nsatz | reflexivity] | split; tuple_eq ltac:(nsatz)].
 Qed.
 Lemma aff3_SE2 (X : M33 R) : SE2 X -> aff3 Rops X = X.
 Proof. intros [_ H]. destruct_tuples. gen_unfold. injection H; intros; subst. reflexivity. Qed.
-Lemma minv_aff3_SE2 (X : M33 R) : SE2 X -> minv_aff3 Rops X = trinv2_ref X.
+
+Theorem C02_SE2_power_laws : forall X : M33 R, SE2 X ->
+  power_laws _ (mmul33 Rops) (I33 Rops) (sinv_aff3 Rops) (aff3 Rops X).
 Proof.
-  intros H. pose proof H as [Hr _]. destruct (minv_aff3_inverse X (SO2_det _ Hr)) as [H1 _].
-  rewrite (aff3_SE2 X H) in H1.
-  apply (inverse_unique _ (mmul33 Rops) (I33 Rops) mmul33_assoc mmul33_I_l mmul33_I_r X); [exact H1|].
-  apply SE2_trinv2; exact H.
+  intros X H. rewrite (aff3_SE2 X H). destruct (SE2_trinv2 X H) as (_ & Hl & Hr).
+  apply power_laws_hold; auto using mmul33_assoc, mmul33_I_l, mmul33_I_r; rewrite sinv_aff3_is_trinv2; assumption.
 Qed.
+Print Assumptions C02_SE2_power_laws.
+
+(* powers of a group element stay in the group, and X ** -n is the .inv() of X ** n *)
+Theorem C02_SO3_pow_group : forall (X : M33 R) (n : Z), SO3 X ->
+  SO3 (SO3_pow Rops X n) /\ SO3_pow Rops X (- n) = mtr33 (SO3_pow Rops X n).
+Proof.
+  intros X n H. split; [|apply C02_SO3_pow_neg_defect].
+  unfold SO3_pow. apply (mpow_closed _ _ _ _ SO3); auto using SO3_I, SO3_mul, SO3_tr.
+Qed.
+Print Assumptions C02_SO3_pow_group.
+
+Theorem C02_SO2_pow_group : forall (X : M22 R) (n : Z), SO2 X ->
+  SO2 (SO2_pow Rops X n) /\ SO2_pow Rops X (- n) = mtr22 (SO2_pow Rops X n).
+Proof.
+  intros X n H. split; [|apply C02_SO2_pow_neg_defect].
+  unfold SO2_pow. apply (mpow_closed _ _ _ _ SO2); auto using SO2_I, SO2_mul, SO2_tr.
+Qed.
+Print Assumptions C02_SO2_pow_group.
+
+Lemma SE3_I : SE3 (I44 Rops).
+Proof. unfold SE3. lin_simpl. unfold SO3. repeat split; ring. Qed.
+
+Theorem C02_SE3_pow_group : forall (X : M44 R) (n : Z), SE3 X ->
+  SE3 (SE3_pow Rops X n) /\ SE3_pow Rops X (- n) = trinv_ref (SE3_pow Rops X n).
+Proof.
+  intros X n H.
+  assert (Hc : forall k, SE3 (SE3_pow Rops X k)).
+  { intro k. unfold SE3_pow. rewrite (aff4_SE3 X H). apply (mpow_closed _ _ _ _ SE3); auto using SE3_I, SE3_mul.
+    rewrite sinv_aff4_is_trinv. apply SE3_inv; assumption. }
+  split; [apply Hc|].
+  destruct (C02_SE3_power_laws X H 0%Z n) as (L1 & _ & _).
+  apply (inverse_unique _ (mmul44 Rops) (I44 Rops) mmul44_assoc mmul44_I_l mmul44_I_r (SE3_pow Rops X n)); [exact L1|].
+  apply SE3_inv_l. apply Hc.
+Qed.
+Print Assumptions C02_SE3_pow_group.
 
 Theorem C02_SE2_pow_group : forall (X : M33 R) (n : Z), SE2 X ->
   SE2 (SE2_pow Rops X n) /\ SE2_pow Rops X (- n) = trinv2_ref (SE2_pow Rops X n).
 Proof.
-  intros X n H. pose proof H as [Hr _].
+  intros X n H.
   assert (Hc : forall k, SE2 (SE2_pow Rops X k)).
   { intro k. unfold SE2_pow. rewrite (aff3_SE2 X H). apply (mpow_closed _ _ _ _ SE2); auto using SE2_I, SE2_mul.
-    rewrite minv_aff3_SE2 by assumption. apply SE2_trinv2; assumption. }
+    rewrite sinv_aff3_is_trinv2. apply SE2_trinv2; assumption. }
   split; [apply Hc|].
-  destruct (C02_SE2_power_laws X (SO2_det _ Hr) 0%Z n) as (_ & _ & _ & _ & L1 & _ & _).
+  destruct (C02_SE2_power_laws X H 0%Z n) as (L1 & _ & _).
   apply (inverse_unique _ (mmul33 Rops) (I33 Rops) mmul33_assoc mmul33_I_l mmul33_I_r (SE2_pow Rops X n)); [exact L1|].
   apply SE2_trinv2. apply Hc.
 Qed.
 Print Assumptions C02_SE2_pow_group.
 
-Example C02_p_nonvacuous :
-  det33 Rops ((3/5, -4/5, 0), (4/5, 3/5, 0), (0, 0, 1)) <> 0 /\
-  SO3_pow Rops ((3/5, -4/5, 0), (4/5, 3/5, 0), (0, 0, 1)) 2 <> I33 Rops /\
-  SO3_pow Rops ((3/5, -4/5, 0), (4/5, 3/5, 0), (0, 0, 1)) (-1) = ((3/5, 4/5, 0), (-4/5, 3/5, 0), (0, 0, 1)).
+(* ================================================================== 4. membership is needed for the mixed-sign law *)
+(* full statement "X**1 * X**-1 = I for ALL matrices" is false of the faithful model (the closed-form inverse of a
+   non-orthogonal matrix is not its inverse); _partial = C02_SO3_power_laws (SO3 X ->), defect form above *)
+Theorem C02_SO3_power_laws_all_matrices_refuted : exists X : M33 R,
+  mmul33 Rops (SO3_pow Rops X 1) (SO3_pow Rops X (-1)) <> I33 Rops.
 Proof.
-  split; [|split].
-  - lin_simpl. lra.
+  exists ((2,0,0),(0,1,0),(0,0,1)). pow_unfold. gen_unfold. intro H. injection H. intros. lra.
+Qed.
+Print Assumptions C02_SO3_power_laws_all_matrices_refuted.
+
+(* non-vacuity: a non-trivial rotation / rigid motion meets the hypotheses, and its powers are not trivial *)
+Example C02_p_nonvacuous :
+  SO3 ((3/5, -4/5, 0), (4/5, 3/5, 0), (0, 0, 1)) /\
+  SO3_pow Rops ((3/5, -4/5, 0), (4/5, 3/5, 0), (0, 0, 1)) 2 <> I33 Rops /\
+  SO3_pow Rops ((3/5, -4/5, 0), (4/5, 3/5, 0), (0, 0, 1)) (-1) = ((3/5, 4/5, 0), (-4/5, 3/5, 0), (0, 0, 1)) /\
+  SE3 ((3/5, -4/5, 0, 7), (4/5, 3/5, 0, -2), (0, 0, 1, 1/3), (0, 0, 0, 1)) /\
+  SE3_pow Rops ((3/5, -4/5, 0, 7), (4/5, 3/5, 0, -2), (0, 0, 1, 1/3), (0, 0, 0, 1)) (-1) =
+    ((3/5, 4/5, 0, -13/5), (-4/5, 3/5, 0, 34/5), (0, 0, 1, -1/3), (0, 0, 0, 1)) /\
+  SE2 ((3/5, -4/5, 7), (4/5, 3/5, -2), (0, 0, 1)) /\ SO2 ((3/5, -4/5), (4/5, 3/5)).
+Proof.
+  repeat split; try (unfold SO3, SO2; lin_simpl; repeat split; lra); try reflexivity.
   - pow_unfold. gen_unfold. intro H. injection H. intros. lra.
+  - pow_unfold. gen_unfold. tuple_eq ltac:(field).
   - pow_unfold. gen_unfold. tuple_eq ltac:(field).
 Qed.
